@@ -477,10 +477,16 @@ class Shadow:
         self.compare_committed('after-storage-begin-failure')
 
     def op_close_while_joined(self):
-        if not (self.work or self.added):
+        if not (self.work or self.added or self.layers):
             self.op_modify()
             if not (self.work or self.added):
                 return
+        # "inside a transaction" = the connection is one of the transaction's resources: also right after a savepoint or a
+        # rollback, when everything it changed sits in the savepoint storage and nothing is registered with it
+        if not any(r is self.conn for r in getattr(self.tm.get(), '_resources', ())):
+            return
+        if not (self.work or self.added):
+            self.count('close_attempts_with_everything_in_savepoints')
         try:
             self.conn.close()
             raise Diverged('close-inside-a-transaction-accepted', {})
